@@ -27,6 +27,29 @@ pub struct Printer<'a, 'b> {
     uniform_escape: Option<u8>,
 }
 
+/// all parts are characters / ranges up to U+00FF and at least one is not ASCII
+pub fn latin1_class(c: &CharRule) -> bool {
+    let mut non_ascii = false;
+    for p in &c.parts {
+        match p {
+            CharPart::Char(x) => {
+                if *x as u32 > 0xff {
+                    return false;
+                }
+                non_ascii |= !x.is_ascii();
+            }
+            CharPart::Range(a, b) => {
+                if *a as u32 > 0xff || *b as u32 > 0xff {
+                    return false;
+                }
+                non_ascii |= !a.is_ascii() || !b.is_ascii();
+            }
+            CharPart::Class(_) => return false,
+        }
+    }
+    non_ascii
+}
+
 pub fn print_canonical(g: &Grammar) -> String {
     let mut s = Src::empty();
     let mut p = Printer::new(&mut s, false, false);
@@ -162,6 +185,14 @@ impl<'a, 'b> Printer<'a, 'b> {
         self.gap(true);
         self.out.push('=');
         self.in_expr = true;
+        // sometimes every character of the class in one escape form (a class spelled entirely with \xNN, \uNNNN ...)
+        let latin1_only = latin1_class(c);
+        if self.vary && !self.src.exhausted() && latin1_only && self.src.chance(150) {
+            // a class over U+0080..U+00FF spelled with \xNN throughout (NN is a code point, not a byte)
+            self.uniform_escape = Some(2);
+        } else if self.vary && !self.src.exhausted() && self.src.chance(60) {
+            self.uniform_escape = Some(*self.src.choose(&[2u8, 2, 2, 3, 5]));
+        }
         for (i, p) in c.parts.iter().enumerate() {
             if i > 0 {
                 self.gap(true);
@@ -180,6 +211,7 @@ impl<'a, 'b> Printer<'a, 'b> {
                 CharPart::Class(n) => self.out.push_str(n),
             }
         }
+        self.uniform_escape = None;
         self.in_expr = false;
     }
 
